@@ -371,7 +371,9 @@ class MCNP_Problem:
                         matching_map[match] = surface
         for cell in self.cells:
             cell.remove_duplicate_surfaces(matching_map)
-        self.__update_internal_pointers()
+        for surface in self.surfaces:
+            if surface.periodic_surface in matching_map:
+                surface._periodic_surface = matching_map[surface.periodic_surface]
         for surface in to_delete:
             self._surfaces.remove(surface)
 
